@@ -107,6 +107,7 @@ type c05SignReq struct {
 	wscript  []byte
 	key      [33]byte // untweaked key the signature is requested for
 	digest   [32]byte // musig: message signed
+	combined *btcec.PublicKey // musig: the session's (tweaked) aggregate key = taproot output key signed for
 }
 
 type c05Signer struct {
@@ -115,8 +116,9 @@ type c05Signer struct {
 	byPub map[[33]byte]*btcec.PrivateKey
 	byIdx map[uint32]*btcec.PrivateKey
 	musig *input.MusigSessionManager
-	// session -> local key
-	sessKey map[[32]byte][33]byte
+	// session -> local key / aggregate key
+	sessKey  map[[32]byte][33]byte
+	sessComb map[[32]byte]*btcec.PublicKey
 
 	calls  int
 	failAt int
@@ -130,7 +132,8 @@ func newC05Signer(trace *[]string) *c05Signer {
 	s := &c05Signer{
 		byPub:   map[[33]byte]*btcec.PrivateKey{},
 		byIdx:   map[uint32]*btcec.PrivateKey{},
-		sessKey: map[[32]byte][33]byte{},
+		sessKey:  map[[32]byte][33]byte{},
+		sessComb: map[[32]byte]*btcec.PublicKey{},
 		failAt:  -1,
 		trace:   trace,
 	}
@@ -244,6 +247,7 @@ func (s *c05Signer) MuSig2CreateSession(_ context.Context,
 	if p, ok := s.byIdx[loc.Index]; ok {
 		s.sessKey[info.SessionID] = c05Raw(p.PubKey())
 	}
+	s.sessComb[info.SessionID] = info.CombinedKey
 	return info, nil
 }
 
@@ -264,7 +268,7 @@ func (s *c05Signer) MuSig2Sign(_ context.Context, id [32]byte, msg [32]byte,
 		return nil, err
 	}
 	s.log = append(s.log, c05SignReq{
-		kind: "musig", digest: msg, key: s.sessKey[id],
+		kind: "musig", digest: msg, key: s.sessKey[id], combined: s.sessComb[id],
 	})
 	b, err := input.SerializePartialSignature(ps)
 	if err != nil {
@@ -1691,9 +1695,19 @@ func (w *c05World) sigTokens(pending *order.Batch, sigs order.BatchSignature) st
 					}
 				}
 			}
+			// the output the MuSig2 session's aggregate key pays to: the
+			// account output this partial signature can help to spend
+			forOut := "?"
+			if a != nil && q.combined != nil {
+				if acct, err := w.db.Account(a.pub); err == nil {
+					if pk, err := txscript.PayToTaprootScript(q.combined); err == nil {
+						forOut = strconv.Itoa(c05Out(w, &wire.TxOut{Value: int64(acct.Value), PkScript: pk}))
+					}
+				}
+			}
 			if idx >= 0 {
 				tids[c05Tid(w, pending.BatchTX)] = true
-				rows = append(rows, row{k, fmt.Sprintf("%d:%d:t:%d", k, idx, txscript.SigHashDefault)})
+				rows = append(rows, row{k, fmt.Sprintf("%d:%d:t:%d:%s", k, idx, txscript.SigHashDefault, forOut)})
 			} else {
 				rows = append(rows, row{k, fmt.Sprintf("%d:x:t:?", k)})
 			}
